@@ -3,10 +3,9 @@
 Each detector below is exact for its class (a one-shot iterator consumed twice, a loop variable read after its loop
 by accident, a state lookup on a non-ground expression, …): what it reports is a defect whatever the surrounding code
 looks like, and package-wide none of them reports anything on today's tree (tools/generic_survey.py). What makes them
-part of *this property's* check is the scope: they run on the classes (all methods) and module-level functions that
-the property's own rules already analyse, inside the files the property is anchored in (properties.jsonl) — the
-functions in which the property is implemented — so a report is a defect inside the mechanism of the property, not
-somewhere else in the package.
+part of *this property's* check is the scope: they run on the functions of the files the property is anchored in
+(properties.jsonl, anchors.files) — the code in which the property is implemented — so a report is a defect inside
+the mechanism of the property, not somewhere else in the package.
 
 The rule names are `<ID>.G <detector>`; DESIGN.md section 3 describes the templates (T18–T24 and the round-5 ones).
 """
@@ -19,32 +18,20 @@ from ..report import Report
 
 
 def scope_of(idx: Index, rep: Report) -> List[FuncInfo]:
-    """Functions analysed so far (noted or named by an obligation), widened to all methods of their classes."""
-    names = set(rep.sets.get("functions_analysed", set())) | {o.function for o in rep.obligations if o.function}
+    """The functions of the files the property is anchored in (properties.jsonl: anchors.files; a directory anchor
+    covers the files below it). Without anchors: the functions the property's rules analysed, widened to their
+    classes."""
+    anchors = _anchor_files(rep.prop)
     by_q = {}
     for f in idx.all_funcs():
         by_q.setdefault(f.qualname, f)
-    class_names = {ci.qualname for m in idx.modules.values() for ci in m.classes.values()}
-    classes = set()
-    out = {}
-    for q in names:
-        f = by_q.get(q)
-        if f is None:
-            if q in class_names:  # an obligation may name a class
-                classes.add(q)
-            continue
-        out[f.qualname] = f
-        owner = q.rsplit(".", 1)[0]
-        if owner in class_names:
-            classes.add(owner)
-    for q, f in by_q.items():
-        if q.rsplit(".", 1)[0] in classes:
-            out[q] = f
-    # … and narrowed to the files the property is anchored in (properties.jsonl: anchors.files; a directory anchor
-    # covers the files below it): package-wide sweeps of some checks name functions everywhere
-    anchors = _anchor_files(rep.prop)
     if anchors:
-        out = {q: f for q, f in out.items() if any(f.module.relpath == a or (a.endswith("/") and f.module.relpath.startswith(a)) for a in anchors)}
+        out = {q: f for q, f in by_q.items() if any(f.module.relpath == a or (a.endswith("/") and f.module.relpath.startswith(a)) for a in anchors)}
+        return [out[q] for q in sorted(out)]
+    names = set(rep.sets.get("functions_analysed", set())) | {o.function for o in rep.obligations if o.function}
+    class_names = {ci.qualname for m in idx.modules.values() for ci in m.classes.values()}
+    classes = {q.rsplit(".", 1)[0] for q in names if q.rsplit(".", 1)[0] in class_names} | {q for q in names if q in class_names}
+    out = {q: f for q, f in by_q.items() if q in names or q.rsplit(".", 1)[0] in classes}
     return [out[q] for q in sorted(out)]
 
 
@@ -88,6 +75,17 @@ def run_generic(prop: str, idx: Index, rep: Report, tier: str) -> None:
 
         raise AnalysisError(f"{g} expression-node-truthiness: the positive fixture no longer fires")
     n += rules2.expression_node_truthiness(rep, f"{g} expression-node-truthiness", funcs) or 0
+    # class-level detector: every class defined in the files the property is anchored in
+    anchors = _anchor_files(prop)
+    anchored = [ci for m in idx.modules.values() for ci in m.classes.values() if any(m.relpath == a or (a.endswith("/") and m.relpath.startswith(a)) for a in anchors)]
+    n += rules2.companion_fields(rep, f"{g} companion-fields-written-together", idx, anchored) or 0
+    n += rules2.parallel_lists(rep, f"{g} parallel-lists-grow-together", idx, funcs) or 0
+    if not rules2.self_check_strip():
+        from ..index import AnalysisError
+
+        raise AnalysisError(f"{g} strip-charset-misuse: the fixture no longer gives one report and one pass")
+    n += rules2.strip_charset_misuse(rep, f"{g} strip-given-a-prefix", funcs) or 0
+    n += rules2.stale_guard(rep, f"{g} guard-tests-the-sibling-variable", funcs) or 0
     rep.count("generic_instances", n)
 
 
